@@ -16,6 +16,7 @@
 
 struct shim_logent shim_logv[SHIM_MAXLOG];
 int shim_nlog, shim_ntotal, shim_log_enabled, shim_out_fd = 1, shim_static_bufs;
+int shim_fired, shim_fired_err;       /* fault rules that fired so far / those that made the call fail with an errno */
 int shim_disabled;      /* set before any thread starts (TSan runs): wrappers pass straight through */
 
 static long long cap[MAXFD];
@@ -63,7 +64,7 @@ static int fault_for(char kind, int fd, long long *action) {
         if(r->kind != kind || r->used || !match_fd(r->fd, fd)) continue;
         int count;
         if(r->fd == -1) count = anycalls[k]; else count = (fd >= 0 && fd < MAXFD) ? calls[k][fd] : 0;
-        if(count == r->nth) { r->used = 1; *action = r->action; return 1; }
+        if(count == r->nth) { r->used = 1; *action = r->action; shim_fired++; if(r->action > 0) shim_fired_err++; return 1; }
     }
     return 0;
 }
